@@ -112,12 +112,14 @@ static void run_enc(uint64_t seed, long n)
 }
 
 void c13_run_dec(uint64_t seed, long n);
+void c13_run_ms(uint64_t seed, long n);
 
 int main(int argc, char **argv)
 {
    vinstall_traps();
    if (argc >= 4 && !strcmp(argv[1], "enc")) run_enc(strtoull(argv[2], 0, 10), atol(argv[3]));
    else if (argc >= 4 && !strcmp(argv[1], "dec")) c13_run_dec(strtoull(argv[2], 0, 10), atol(argv[3]));
-   else { fprintf(stderr, "usage: c13_entry enc|dec <seed> <n>\n"); return 64; }
+   else if (argc >= 4 && !strcmp(argv[1], "ms")) c13_run_ms(strtoull(argv[2], 0, 10), atol(argv[3]));
+   else { fprintf(stderr, "usage: c13_entry enc|dec|ms <seed> <n>\n"); return 64; }
    return 0;
 }
